@@ -39,9 +39,10 @@ CONSTANTS PeerRules,    \* peers that can be blocked (the rule is named like the
           AddrRules,    \* single-address rules
           SubnetRules,  \* subnet rules
           Match,        \* [AddrRules \cup SubnetRules -> SUBSET IP names]
-          Canon,        \* [Rules -> rule name]: how loadRules lists a rule written under this name.  Identity but
-                        \* for a subnet given with host bits set ("127.0.0.3/31"): the datastore key and the map
-                        \* key keep the caller's spelling, net.ParseCIDR in loadRules yields the masked network
+          Canon,        \* [Rules -> Rules]: the rule a call given this name acts on.  Identity but for a subnet
+                        \* given with host bits set ("127.0.0.3/31"): BlockSubnet/UnblockSubnet key the rule, in
+                        \* memory and in the datastore, by the masked network (maskedSubnet, commit 9a893a1), which
+                        \* is also what net.ParseCIDR yields in loadRules and what ListBlockedSubnets reports
           Endpoints,    \* set of <<peer, ip>>: the remotes a connection can be attempted with ({} = none)
           Dirs,         \* subset of {"out", "in"}
           Tpts,         \* transports, e.g. {"tcp", "quic"} (same consultations; kept for the binding)
@@ -53,17 +54,16 @@ Rules == PeerRules \cup IPRules
 
 VARIABLES mem,    \* SUBSET Rules: rule set of the running process
           disk,   \* SUBSET Rules: persisted rule set
-          loaded, \* SUBSET mem: entries created by loadRules whose listed value differs from their key
           up,     \* BOOLEAN: a process (gater object) exists
           call,   \* the Block*/Unblock* call in progress
           att,    \* the connection attempt in progress
           must,   \* ghost [Rules -> {"in","out","never","free"}]: what the returned calls oblige
           op      \* output only: last action with its expected observable results
 
-vars == <<mem, disk, loaded, up, call, att, must, op>>
-View == <<mem, disk, loaded, up, call, att, must>>
+vars == <<mem, disk, up, call, att, must, op>>
+View == <<mem, disk, up, call, att, must>>
 
-NoCall == [kind |-> "none", r |-> "-", pc |-> "-", prev |-> "-"]
+NoCall == [kind |-> "none", r |-> "-", pc |-> "-", prev |-> <<>>]
 NoAtt == [dir |-> "-", peer |-> "-", ip |-> "-", tpt |-> "-", k |-> 0, cont |-> {}]
 
 Stages(dir) == IF dir = "out" THEN <<"peerdial", "addrdial", "tdial", "secured", "upgraded">>
@@ -81,11 +81,12 @@ Gate(stage, dir, p, ip, M) ==
 
 Matching(p, ip) == {r \in Rules : r = p \/ (r \in IPRules /\ ip \in Match[r])}
 
-(* what ListBlocked* returns: the caller's value for entries made by a call, the parsed (masked) one for   *)
-(* entries made by loadRules                                                                             *)
-Shown == {IF r \in loaded THEN Canon[r] ELSE r : r \in mem}
+ASSUME \A r \in Rules : Canon[r] \in Rules /\ Canon[Canon[r]] = Canon[r]
 
-Init == /\ mem = {} /\ disk = {} /\ loaded = {} /\ up = TRUE
+(* what ListBlocked* returns: the keys themselves (every spelling of a subnet is stored masked)          *)
+Shown == mem
+
+Init == /\ mem = {} /\ disk = {} /\ up = TRUE
         /\ call = NoCall /\ att = NoAtt
         /\ must = [r \in Rules |-> "never"]     \* "out" is reserved for: an Unblock returned success
         /\ op = [name |-> "init"]
@@ -96,30 +97,35 @@ Init == /\ mem = {} /\ disk = {} /\ loaded = {} /\ up = TRUE
 Begin(kind, r) ==
   /\ up /\ call = NoCall
   /\ Exclusive => att = NoAtt
-  /\ call' = [kind |-> kind, r |-> r, pc |-> "atwrite", prev |-> must[r]]
-  /\ must' = [must EXCEPT ![r] = "free"]      \* while the call runs either answer is acceptable
+  /\ call' = [kind |-> kind, r |-> r, pc |-> "atwrite", prev |-> must]
+  \* while the call runs either answer is acceptable for its rule; the obligations are kept per SPELLING
+  \* (as the harness ledger keeps them, which does not presume that "127.0.0.3/31" and "127.0.0.2/31" are
+  \* one rule): an opposite obligation of another spelling of the same subnet lapses with the call
+  /\ must' = [x \in Rules |->
+               IF x = r THEN "free"
+               ELSE IF Canon[x] = Canon[r] /\ must[x] = (IF kind = "block" THEN "out" ELSE "in")
+                    THEN "free" ELSE must[x]]
   /\ op' = [name |-> "begin", kind |-> kind, r |-> r]
-  /\ UNCHANGED <<mem, disk, loaded, up, att>>
+  /\ UNCHANGED <<mem, disk, up, att>>
 
 WriteOk ==
   /\ up /\ call.pc = "atwrite"
-  /\ disk' = IF call.kind = "block" THEN disk \cup {call.r} ELSE disk \ {call.r}
+  /\ disk' = IF call.kind = "block" THEN disk \cup {Canon[call.r]} ELSE disk \ {Canon[call.r]}
   /\ call' = [call EXCEPT !.pc = "written"]
   /\ op' = [name |-> "write", outcome |-> "ok", kind |-> call.kind, r |-> call.r]
-  /\ UNCHANGED <<mem, loaded, up, att, must>>
+  /\ UNCHANGED <<mem, up, att, must>>
 
 WriteFail ==
   /\ "fail" \in Faults
   /\ up /\ call.pc = "atwrite"
   /\ call' = NoCall
-  /\ must' = [must EXCEPT ![call.r] = call.prev]   \* a call that returned an error obliges nothing new
+  /\ must' = call.prev                        \* a call that returned an error obliges nothing new
   /\ op' = [name |-> "write", outcome |-> "fail", kind |-> call.kind, r |-> call.r, ret |-> "error"]
-  /\ UNCHANGED <<mem, disk, loaded, up, att>>
+  /\ UNCHANGED <<mem, disk, up, att>>
 
 Finish ==
   /\ up /\ call.pc = "written"
-  /\ mem' = IF call.kind = "block" THEN mem \cup {call.r} ELSE mem \ {call.r}
-  /\ loaded' = loaded \ {call.r}             \* a block overwrites the map entry with the caller's value
+  /\ mem' = IF call.kind = "block" THEN mem \cup {Canon[call.r]} ELSE mem \ {Canon[call.r]}
   /\ call' = NoCall
   /\ must' = [must EXCEPT ![call.r] = IF call.kind = "block" THEN "in" ELSE "out"]
   /\ op' = [name |-> "finish", kind |-> call.kind, r |-> call.r, ret |-> "ok"]
@@ -129,14 +135,13 @@ Crash ==
   /\ "crash" \in Faults
   /\ up
   /\ Exclusive => att = NoAtt
-  /\ up' = FALSE /\ mem' = {} /\ loaded' = {} /\ call' = NoCall /\ att' = NoAtt
+  /\ up' = FALSE /\ mem' = {} /\ call' = NoCall /\ att' = NoAtt
   /\ op' = [name |-> "crash", at |-> IF call = NoCall THEN "idle" ELSE call.pc]
   /\ UNCHANGED <<disk, must>>                 \* an interrupted call leaves its rule "free"
 
 Reopen ==
   /\ ~up
   /\ up' = TRUE /\ mem' = disk                \* loadRules
-  /\ loaded' = {r \in disk : Canon[r] # r}
   /\ op' = [name |-> "reopen"]
   /\ UNCHANGED <<disk, call, att, must>>
 
@@ -148,7 +153,7 @@ AttStart(dir, p, ip, t) ==
   /\ Exclusive => call = NoCall
   /\ att' = [dir |-> dir, peer |-> p, ip |-> ip, tpt |-> t, k |-> 1, cont |-> Matching(p, ip)]
   /\ op' = [name |-> "att_start", dir |-> dir, peer |-> p, ip |-> ip, tpt |-> t]
-  /\ UNCHANGED <<mem, disk, loaded, up, call, must>>
+  /\ UNCHANGED <<mem, disk, up, call, must>>
 
 (* One stage.  cont = the matching rules that were in mem at EVERY consultation so far.        *)
 AttStep ==
@@ -170,7 +175,7 @@ AttStep ==
                      /\ op' = base @@ [allow |-> TRUE, end |-> "admitted", cont |-> c]
                 ELSE /\ att' = [att EXCEPT !.k = @ + 1, !.cont = c]
                      /\ op' = base @@ [allow |-> TRUE, end |-> "-", cont |-> c]
-  /\ UNCHANGED <<mem, disk, loaded, up, call, must>>
+  /\ UNCHANGED <<mem, disk, up, call, must>>
 
 Next == \/ \E kind \in {"block", "unblock"}, r \in Rules : Begin(kind, r)
         \/ WriteOk \/ WriteFail \/ Finish \/ Crash \/ Reopen
@@ -187,20 +192,19 @@ TypeOK == /\ mem \subseteq Rules /\ disk \subseteq Rules /\ up \in BOOLEAN
           /\ att.k \in 0..5 /\ att.cont \subseteq Rules
           /\ \A r \in Rules : must[r] \in {"in", "out", "never", "free"}
           /\ ~up => (call = NoCall /\ att = NoAtt /\ mem = {})
-          /\ loaded \subseteq mem
 
 (* Durable, in its "wherever the process stopped" form: what the successfully returned calls oblige *)
 (* is on disk at EVERY moment (so it is what any later Reopen loads) ...                            *)
-DurableDisk == \A r \in Rules : /\ must[r] = "in" => r \in disk
-                                /\ must[r] = "out" => r \notin disk
+DurableDisk == \A r \in Rules : /\ must[r] = "in" => Canon[r] \in disk
+                                /\ must[r] = "out" => Canon[r] \notin disk
 (* ... and is the rule set of every running process, in particular of every reopened one           *)
 (* (a rule whose Unblock returned success is neither in force nor listed any more)                  *)
-Durable == up => \A r \in Rules : /\ must[r] = "in" => r \in mem
-                                  /\ must[r] = "out" => (r \notin mem /\ r \notin Shown)
+Durable == up => \A r \in Rules : /\ must[r] = "in" => (Canon[r] \in mem /\ Canon[r] \in Shown)
+                                  /\ must[r] = "out" => (Canon[r] \notin mem /\ r \notin Shown)
 
 (* nothing that was never blocked with success (or is being blocked) is in force: outside the       *)
 (* statement, kept as a design invariant                                                            *)
-NoSpurious == \A r \in Rules : must[r] = "never" => (r \notin disk /\ r \notin mem)
+NoSpurious == \A k \in mem \cup disk : \E r \in Rules : Canon[r] = k /\ must[r] # "never"
 
 (* outside a call the process and the datastore agree *)
 MemDiskAgree == (up /\ call = NoCall) => mem = disk
